@@ -103,7 +103,13 @@ def gen_spec(rng):
     nsfc = int(rng.integers(1, 4))
     nlay = int(rng.integers(1, 3))
     nz = int(rng.integers(1, 4))
+    extra = None
+    if nz >= 2 and rng.random() < 0.3:
+        # a variable reported only from some upper level on (not at the
+        # first upper level)
+        extra = {'key': 'SPHU', 'from': int(rng.integers(1, nz))}
     return {
+        'layextra': extra,
         'nx': nx, 'ny': ny, 'nt': int(rng.integers(1, 6)),
         'sfckeys': ['PRSS', 'T02M', 'U10M'][:nsfc],
         'laykeys': ['TEMP', 'UWND'][:nlay],
@@ -115,6 +121,15 @@ def gen_spec(rng):
         'seed': int(rng.integers(1 << 30)),
         'dlat': 1.0, 'dlon': 1.0, 'lat0': 30.0, 'lon0': -100.0,
     }
+
+
+def level_keys(spec, li):
+    """variables reported at level li (0 = surface)"""
+    if li == 0:
+        return list(spec['sfckeys'])
+    ex = spec.get('layextra')
+    return list(spec['laykeys']) + (
+        [ex['key']] if ex and li - 1 >= ex['from'] else [])
 
 
 def times_of(spec):
@@ -144,12 +159,18 @@ def encode(spec):
         exp['vars'][k] = np.zeros((spec['nt'], nlev - 1, ny, nx), 'f4')
         exp['orig'][k] = np.zeros((spec['nt'], nlev - 1, ny, nx), 'f4')
         exp['nexp'][k] = np.zeros((spec['nt'], nlev - 1), 'i4')
+    ex = spec.get('layextra')
+    if ex:
+        nl = nlev - 1 - ex['from']
+        exp['vars'][ex['key']] = np.zeros((spec['nt'], nl, ny, nx), 'f4')
+        exp['orig'][ex['key']] = np.zeros((spec['nt'], nl, ny, nx), 'f4')
+        exp['nexp'][ex['key']] = np.zeros((spec['nt'], nl), 'i4')
     for t, when in enumerate(exp['times']):
         ymdhf = when.strftime('%y%m%d%H') + ' 0'
         recs = []
         levinfo = ''
         for li, lev in enumerate(spec['levels']):
-            keys = spec['sfckeys'] if li == 0 else spec['laykeys']
+            keys = level_keys(spec, li)
             txt = ('%6.4f' % lev)[:6] if lev < 10 else ('%6.1f' % lev)
             levinfo += txt + '%2d' % len(keys)
             for vi, key in enumerate(keys):
@@ -164,9 +185,11 @@ def encode(spec):
                     exp['orig'][key][t] = f
                     exp['nexp'][key][t] = nexp
                 else:
-                    exp['vars'][key][t, li - 1] = dec
-                    exp['orig'][key][t, li - 1] = f
-                    exp['nexp'][key][t, li - 1] = nexp
+                    lj = li - 1 - (ex['from'] if ex and key == ex['key']
+                                   else 0)
+                    exp['vars'][key][t, lj] = dec
+                    exp['orig'][key][t, lj] = f
+                    exp['nexp'][key][t, lj] = nexp
         lenh = 108 + len(levinfo)
         hdr = ('%-4s%3d%2d' % ('PNCM', 99, 1) +
                ''.join('%7.2f' % v for v in (
